@@ -106,42 +106,91 @@ pub proof fn use_algebra<C: Ciphersuite>()
 // reported as a violation merely because the first proof attempt has no AC reasoning.  Every conjunct is an axiom of prelude/traits.rs or a
 // lemma of lemmas/vgroup.rs instantiated for all arguments: adding them cannot make a false obligation pass.
 pub proof fn use_ac<C: Ciphersuite>()
-    ensures
-        forall|a: Scalar<C>, b: Scalar<C>| #[trigger] FF::<C>::s_add(a, b) == FF::<C>::s_add(b, a),
-        forall|a: Scalar<C>, b: Scalar<C>| #[trigger] FF::<C>::s_mul(a, b) == FF::<C>::s_mul(b, a),
-        forall|a: Scalar<C>, b: Scalar<C>, c: Scalar<C>| #[trigger] FF::<C>::s_add(FF::<C>::s_add(a, b), c) == FF::<C>::s_add(a, FF::<C>::s_add(b, c)),
-        forall|a: Scalar<C>, b: Scalar<C>, c: Scalar<C>| #[trigger] FF::<C>::s_mul(FF::<C>::s_mul(a, b), c) == FF::<C>::s_mul(a, FF::<C>::s_mul(b, c)),
-        forall|a: Scalar<C>, b: Scalar<C>, c: Scalar<C>| #[trigger] FF::<C>::s_mul(a, FF::<C>::s_add(b, c)) == FF::<C>::s_add(FF::<C>::s_mul(a, b), FF::<C>::s_mul(a, c)),
-        forall|a: Scalar<C>| #[trigger] FF::<C>::s_add(a, FF::<C>::s_zero()) == a,
-        forall|a: Scalar<C>| #[trigger] FF::<C>::s_mul(a, FF::<C>::s_one()) == a,
-        forall|a: Scalar<C>| #[trigger] FF::<C>::s_add(a, FF::<C>::s_neg(a)) == FF::<C>::s_zero(),
-        forall|a: Element<C>, b: Element<C>| #[trigger] GG::<C>::e_add(a, b) == GG::<C>::e_add(b, a),
-        forall|a: Element<C>, b: Element<C>, c: Element<C>| #[trigger] GG::<C>::e_add(GG::<C>::e_add(a, b), c) == GG::<C>::e_add(a, GG::<C>::e_add(b, c)),
-        forall|a: Element<C>| #[trigger] GG::<C>::e_add(a, GG::<C>::e_id()) == a,
-        forall|a: Element<C>| #[trigger] GG::<C>::e_add(a, GG::<C>::e_neg(a)) == GG::<C>::e_id(),
-        forall|a: Element<C>, j: Scalar<C>, k: Scalar<C>| #[trigger] GG::<C>::e_smul(a, FF::<C>::s_add(j, k)) == GG::<C>::e_add(GG::<C>::e_smul(a, j), GG::<C>::e_smul(a, k)),
-        forall|a: Element<C>, b: Element<C>, k: Scalar<C>| #[trigger] GG::<C>::e_smul(GG::<C>::e_add(a, b), k) == GG::<C>::e_add(GG::<C>::e_smul(a, k), GG::<C>::e_smul(b, k)),
-        forall|a: Element<C>, j: Scalar<C>, k: Scalar<C>| #[trigger] GG::<C>::e_smul(GG::<C>::e_smul(a, j), k) == GG::<C>::e_smul(a, FF::<C>::s_mul(j, k)),
-        forall|a: Element<C>| #[trigger] GG::<C>::e_smul(a, FF::<C>::s_one()) == a,
+    ensures ac_level3::<C>()
+{ use_ac1::<C>(); use_ac2::<C>(); use_ac3::<C>(); }
+
+// level 1: commutativity, units, inverses, cancellation (a comparison moved to the other side) -- cheap
+pub open spec fn ac_level1<C: Ciphersuite>() -> bool {
+    &&& forall|a: Scalar<C>, b: Scalar<C>| #[trigger] FF::<C>::s_add(a, b) == FF::<C>::s_add(b, a)
+    &&& forall|a: Scalar<C>, b: Scalar<C>| #[trigger] FF::<C>::s_mul(a, b) == FF::<C>::s_mul(b, a)
+    &&& forall|a: Scalar<C>| #[trigger] FF::<C>::s_add(a, FF::<C>::s_zero()) == a
+    &&& forall|a: Scalar<C>| #[trigger] FF::<C>::s_mul(a, FF::<C>::s_one()) == a
+    &&& forall|a: Scalar<C>| #[trigger] FF::<C>::s_add(a, FF::<C>::s_neg(a)) == FF::<C>::s_zero()
+    &&& forall|a: Element<C>, b: Element<C>| #[trigger] GG::<C>::e_add(a, b) == GG::<C>::e_add(b, a)
+    &&& forall|a: Element<C>| #[trigger] GG::<C>::e_add(a, GG::<C>::e_id()) == a
+    &&& forall|a: Element<C>| #[trigger] GG::<C>::e_add(a, GG::<C>::e_neg(a)) == GG::<C>::e_id()
+    &&& forall|a: Element<C>| #[trigger] GG::<C>::e_smul(a, FF::<C>::s_one()) == a
+    &&& forall|b: Element<C>, c: Element<C>| GG::<C>::e_add(#[trigger] GG::<C>::e_add(b, GG::<C>::e_neg(c)), c) == b
+    &&& forall|b: Scalar<C>, c: Scalar<C>| FF::<C>::s_add(#[trigger] FF::<C>::s_add(b, FF::<C>::s_neg(c)), c) == b
+    &&& forall|a: Element<C>, b: Element<C>| #[trigger] GG::<C>::e_add(GG::<C>::e_add(a, b), GG::<C>::e_neg(a)) == b
+    &&& forall|a: Element<C>, b: Element<C>| #[trigger] GG::<C>::e_add(GG::<C>::e_add(b, a), GG::<C>::e_neg(a)) == b
+    &&& forall|a: Scalar<C>, b: Scalar<C>| #[trigger] FF::<C>::s_add(FF::<C>::s_add(a, b), FF::<C>::s_neg(a)) == b
+    &&& forall|a: Scalar<C>, b: Scalar<C>| #[trigger] FF::<C>::s_add(FF::<C>::s_add(b, a), FF::<C>::s_neg(a)) == b
+}
+// level 2: + associativity
+pub open spec fn ac_level2<C: Ciphersuite>() -> bool {
+    &&& ac_level1::<C>()
+    &&& forall|a: Scalar<C>, b: Scalar<C>, c: Scalar<C>| #[trigger] FF::<C>::s_add(FF::<C>::s_add(a, b), c) == FF::<C>::s_add(a, FF::<C>::s_add(b, c))
+    &&& forall|a: Scalar<C>, b: Scalar<C>, c: Scalar<C>| #[trigger] FF::<C>::s_mul(FF::<C>::s_mul(a, b), c) == FF::<C>::s_mul(a, FF::<C>::s_mul(b, c))
+    &&& forall|a: Element<C>, b: Element<C>, c: Element<C>| #[trigger] GG::<C>::e_add(GG::<C>::e_add(a, b), c) == GG::<C>::e_add(a, GG::<C>::e_add(b, c))
+    &&& forall|a: Element<C>, j: Scalar<C>, k: Scalar<C>| #[trigger] GG::<C>::e_smul(GG::<C>::e_smul(a, j), k) == GG::<C>::e_smul(a, FF::<C>::s_mul(j, k))
+}
+// level 3: + distributivity (ring and module)
+pub open spec fn ac_level3<C: Ciphersuite>() -> bool {
+    &&& ac_level2::<C>()
+    &&& forall|a: Scalar<C>, b: Scalar<C>, c: Scalar<C>| #[trigger] FF::<C>::s_mul(a, FF::<C>::s_add(b, c)) == FF::<C>::s_add(FF::<C>::s_mul(a, b), FF::<C>::s_mul(a, c))
+    &&& forall|a: Element<C>, j: Scalar<C>, k: Scalar<C>| #[trigger] GG::<C>::e_smul(a, FF::<C>::s_add(j, k)) == GG::<C>::e_add(GG::<C>::e_smul(a, j), GG::<C>::e_smul(a, k))
+    &&& forall|a: Element<C>, b: Element<C>, k: Scalar<C>| #[trigger] GG::<C>::e_smul(GG::<C>::e_add(a, b), k) == GG::<C>::e_add(GG::<C>::e_smul(a, k), GG::<C>::e_smul(b, k))
+}
+
+pub proof fn use_ac1<C: Ciphersuite>()
+    ensures ac_level1::<C>()
 {
     assert forall|a: Scalar<C>, b: Scalar<C>| #[trigger] FF::<C>::s_add(a, b) == FF::<C>::s_add(b, a) by { FF::<C>::ax_add_comm(a, b); }
     assert forall|a: Scalar<C>, b: Scalar<C>| #[trigger] FF::<C>::s_mul(a, b) == FF::<C>::s_mul(b, a) by { FF::<C>::ax_mul_comm(a, b); }
-    assert forall|a: Scalar<C>, b: Scalar<C>, c: Scalar<C>| #[trigger] FF::<C>::s_add(FF::<C>::s_add(a, b), c) == FF::<C>::s_add(a, FF::<C>::s_add(b, c)) by { FF::<C>::ax_add_assoc(a, b, c); }
-    assert forall|a: Scalar<C>, b: Scalar<C>, c: Scalar<C>| #[trigger] FF::<C>::s_mul(FF::<C>::s_mul(a, b), c) == FF::<C>::s_mul(a, FF::<C>::s_mul(b, c)) by { FF::<C>::ax_mul_assoc(a, b, c); }
-    assert forall|a: Scalar<C>, b: Scalar<C>, c: Scalar<C>| #[trigger] FF::<C>::s_mul(a, FF::<C>::s_add(b, c)) == FF::<C>::s_add(FF::<C>::s_mul(a, b), FF::<C>::s_mul(a, c)) by { FF::<C>::ax_distrib(a, b, c); }
     assert forall|a: Scalar<C>| #[trigger] FF::<C>::s_add(a, FF::<C>::s_zero()) == a by { FF::<C>::ax_add_zero(a); }
     assert forall|a: Scalar<C>| #[trigger] FF::<C>::s_mul(a, FF::<C>::s_one()) == a by { FF::<C>::ax_mul_one(a); }
     assert forall|a: Scalar<C>| #[trigger] FF::<C>::s_add(a, FF::<C>::s_neg(a)) == FF::<C>::s_zero() by { FF::<C>::ax_add_neg(a); }
     assert forall|a: Element<C>, b: Element<C>| #[trigger] GG::<C>::e_add(a, b) == GG::<C>::e_add(b, a) by { GG::<C>::ax_eadd_comm(a, b); }
-    assert forall|a: Element<C>, b: Element<C>, c: Element<C>| #[trigger] GG::<C>::e_add(GG::<C>::e_add(a, b), c) == GG::<C>::e_add(a, GG::<C>::e_add(b, c)) by { GG::<C>::ax_eadd_assoc(a, b, c); }
     assert forall|a: Element<C>| #[trigger] GG::<C>::e_add(a, GG::<C>::e_id()) == a by { GG::<C>::ax_eadd_id(a); }
     assert forall|a: Element<C>| #[trigger] GG::<C>::e_add(a, GG::<C>::e_neg(a)) == GG::<C>::e_id() by { GG::<C>::ax_eadd_neg(a); }
+    assert forall|a: Element<C>| #[trigger] GG::<C>::e_smul(a, FF::<C>::s_one()) == a by { GG::<C>::ax_smul_one(a); }
+    assert forall|b: Element<C>, c: Element<C>| GG::<C>::e_add(#[trigger] GG::<C>::e_add(b, GG::<C>::e_neg(c)), c) == b by {
+        GG::<C>::ax_eadd_assoc(b, GG::<C>::e_neg(c), c); GG::<C>::ax_eadd_comm(GG::<C>::e_neg(c), c); GG::<C>::ax_eadd_neg(c); GG::<C>::ax_eadd_id(b);
+    }
+    assert forall|b: Scalar<C>, c: Scalar<C>| FF::<C>::s_add(#[trigger] FF::<C>::s_add(b, FF::<C>::s_neg(c)), c) == b by {
+        FF::<C>::ax_add_assoc(b, FF::<C>::s_neg(c), c); FF::<C>::ax_add_comm(FF::<C>::s_neg(c), c); FF::<C>::ax_add_neg(c); FF::<C>::ax_add_zero(b);
+    }
+    assert forall|a: Element<C>, b: Element<C>| #[trigger] GG::<C>::e_add(GG::<C>::e_add(b, a), GG::<C>::e_neg(a)) == b by {
+        GG::<C>::ax_eadd_assoc(b, a, GG::<C>::e_neg(a)); GG::<C>::ax_eadd_neg(a); GG::<C>::ax_eadd_id(b);
+    }
+    assert forall|a: Element<C>, b: Element<C>| #[trigger] GG::<C>::e_add(GG::<C>::e_add(a, b), GG::<C>::e_neg(a)) == b by {
+        GG::<C>::ax_eadd_comm(a, b); GG::<C>::ax_eadd_assoc(b, a, GG::<C>::e_neg(a)); GG::<C>::ax_eadd_neg(a); GG::<C>::ax_eadd_id(b);
+    }
+    assert forall|a: Scalar<C>, b: Scalar<C>| #[trigger] FF::<C>::s_add(FF::<C>::s_add(b, a), FF::<C>::s_neg(a)) == b by {
+        FF::<C>::ax_add_assoc(b, a, FF::<C>::s_neg(a)); FF::<C>::ax_add_neg(a); FF::<C>::ax_add_zero(b);
+    }
+    assert forall|a: Scalar<C>, b: Scalar<C>| #[trigger] FF::<C>::s_add(FF::<C>::s_add(a, b), FF::<C>::s_neg(a)) == b by {
+        FF::<C>::ax_add_comm(a, b); FF::<C>::ax_add_assoc(b, a, FF::<C>::s_neg(a)); FF::<C>::ax_add_neg(a); FF::<C>::ax_add_zero(b);
+    }
+}
+pub proof fn use_ac2<C: Ciphersuite>()
+    ensures ac_level2::<C>()
+{
+    use_ac1::<C>();
+    assert forall|a: Scalar<C>, b: Scalar<C>, c: Scalar<C>| #[trigger] FF::<C>::s_add(FF::<C>::s_add(a, b), c) == FF::<C>::s_add(a, FF::<C>::s_add(b, c)) by { FF::<C>::ax_add_assoc(a, b, c); }
+    assert forall|a: Scalar<C>, b: Scalar<C>, c: Scalar<C>| #[trigger] FF::<C>::s_mul(FF::<C>::s_mul(a, b), c) == FF::<C>::s_mul(a, FF::<C>::s_mul(b, c)) by { FF::<C>::ax_mul_assoc(a, b, c); }
+    assert forall|a: Element<C>, b: Element<C>, c: Element<C>| #[trigger] GG::<C>::e_add(GG::<C>::e_add(a, b), c) == GG::<C>::e_add(a, GG::<C>::e_add(b, c)) by { GG::<C>::ax_eadd_assoc(a, b, c); }
+    assert forall|a: Element<C>, j: Scalar<C>, k: Scalar<C>| #[trigger] GG::<C>::e_smul(GG::<C>::e_smul(a, j), k) == GG::<C>::e_smul(a, FF::<C>::s_mul(j, k)) by { GG::<C>::ax_smul_mul(a, j, k); }
+}
+pub proof fn use_ac3<C: Ciphersuite>()
+    ensures ac_level3::<C>()
+{
+    use_ac2::<C>();
+    assert forall|a: Scalar<C>, b: Scalar<C>, c: Scalar<C>| #[trigger] FF::<C>::s_mul(a, FF::<C>::s_add(b, c)) == FF::<C>::s_add(FF::<C>::s_mul(a, b), FF::<C>::s_mul(a, c)) by { FF::<C>::ax_distrib(a, b, c); }
     assert forall|a: Element<C>, j: Scalar<C>, k: Scalar<C>| #[trigger] GG::<C>::e_smul(a, FF::<C>::s_add(j, k)) == GG::<C>::e_add(GG::<C>::e_smul(a, j), GG::<C>::e_smul(a, k)) by { GG::<C>::ax_smul_add(a, j, k); }
     assert forall|a: Element<C>, b: Element<C>, k: Scalar<C>| #[trigger] GG::<C>::e_smul(GG::<C>::e_add(a, b), k) == GG::<C>::e_add(GG::<C>::e_smul(a, k), GG::<C>::e_smul(b, k)) by { GG::<C>::ax_smul_eadd(a, b, k); }
-    assert forall|a: Element<C>, j: Scalar<C>, k: Scalar<C>| #[trigger] GG::<C>::e_smul(GG::<C>::e_smul(a, j), k) == GG::<C>::e_smul(a, FF::<C>::s_mul(j, k)) by { GG::<C>::ax_smul_mul(a, j, k); }
-    assert forall|a: Element<C>| #[trigger] GG::<C>::e_smul(a, FF::<C>::s_one()) == a by { GG::<C>::ax_smul_one(a); }
 }
-
 
 // T6: the `?` operator converts the error with `From::from` (Rust reference); vstd models the conversion by the uninterpreted
 // relation `spec_from`.  For the two `#[from]` conversions of `Error<C>` (expanded by rule E2) it is the generated From impl.
